@@ -23,9 +23,10 @@ ABSENT_CTL = "￿-no-control"
 class Fixture:
     """rows: list of (sample tok, [(name tok, dose tok), ...], plate tok, value tok)"""
 
-    def __init__(self, rows, obs, ctl, fn, fd, zero=(), nan=(), pools=0, name="", tiny=(), explore=True):
+    def __init__(self, rows, obs, ctl, fn, fd, zero=(), nan=(), pools=0, name="", tiny=(), explore=True, perm_samples=False):
         self.rows, self.obs, self.ctl, self.fn, self.fd = rows, list(obs), ctl, fn, fd
         self.zero, self.nan, self.name = list(zero), list(nan), name
+        self.perm_samples = perm_samples      # the prepared screen is given a sample mapping whose ids are not in name order (a 3-cycle)
         self.explore = explore        # False: too many rows for TLC to explore; random histories only, validated by the trace specification
         self.tiny = list(tiny)        # value tokens stored as tiny NON-zero read-outs (a plate of them is an ordinary plate)
         self.arity = len(rows[0][1])
@@ -55,8 +56,14 @@ class Fixture:
         pn = np.array([self.pp[r[2]] for r in self.rows], dtype=str)
         obs = np.array([self.vals[r[3]] for r in self.rows], dtype=float)
         mask = np.array([r[2] in self.obs for r in self.rows], dtype=bool)
+        kw = {}
+        if self.perm_samples:
+            present = sorted(set(sn.tolist()))
+            ids = list(range(len(present)))
+            ids = ids[1:] + ids[:1]                      # name k -> id k+1 (cyclic): a mapping a user may supply, constructible like any other
+            kw["sample_mapping"] = (np.array(present, dtype=str), np.array(ids, dtype=int))
         s = Screen(treatment_names=tn, treatment_doses=td, sample_names=sn, plate_names=pn, observations=obs,
-                   observation_mask=mask, control_treatment_name=self.ctl_name)
+                   observation_mask=mask, control_treatment_name=self.ctl_name, **kw)
         if self.theta is None:
             sp = ExperimentSpace.from_screen(s)
             rng = np.random.default_rng(12345)
@@ -414,7 +421,7 @@ def fixtures(rnd, n_random):
         # whole unobserved plates go to the hold-out (fraction 1): the training screen loses samples and conditions
         Fixture([(0, [c(0, 2), c(3, 2)], 0, 1), (1, [c(1, 2), c(0, 2)], 0, 2), (2, [c(2, 2), c(1, 3)], 1, 3), (3, [c(2, 3), c(3, 2)], 2, 4),
                  (0, [c(0, 3), c(1, 2)], 3, 5)],
-                obs=[0, 3], ctl=3, fn=1, fd=1, pools=3, name="fraction-one"),
+                obs=[0, 3], ctl=3, fn=1, fd=1, pools=3, name="fraction-one", perm_samples=True),
         # nothing observed, fraction 0... (no split possible), duplicates of a condition, control in both columns
         Fixture([(0, [c(0, 2), c(0, 2)], 0, 1), (0, [c(0, 2), c(0, 2)], 1, 2), (1, [c(3, 2), c(3, 1)], 1, 3), (1, [c(1, 0), c(2, 2)], 0, 4)],
                 obs=[], ctl=3, fn=1, fd=2, pools=1, name="duplicates-and-controls"),
@@ -495,8 +502,13 @@ def run_lifecycle(ctx, focus):
             for h in pick:
                 w = replay_path(fx, h, tmp)
                 worlds.append(w)
-            for _ in range(n_random):
-                worlds.append(random_history(fx, rnd, tmp, rnd.randint(1, 12 if focus != "C02" else 16)))
+            from harness.util import verbose_logging
+            for k_ in range(n_random):
+                if k_ % 2:           # every other history with debug logging on: nothing may depend on how verbose the run is
+                    with verbose_logging():
+                        worlds.append(random_history(fx, rnd, tmp, rnd.randint(1, 12 if focus != "C02" else 16)))
+                else:
+                    worlds.append(random_history(fx, rnd, tmp, rnd.randint(1, 12 if focus != "C02" else 16)))
             if focus == "C02":
                 for w in worlds:
                     if not w.raised:
